@@ -45,8 +45,8 @@ func Equal(a, b any) bool { //nolint: gocyclo
 		if ra.Type() != rb.Type() {
 			return false
 		}
-		if !ra.Type().Comparable() {
-			// maps, and structs that contain them: == would panic
+		if !ra.Comparable() || !rb.Comparable() {
+			// maps, and structs or interface fields that contain them: == would panic
 			return reflect.DeepEqual(a, b)
 		}
 		return a == b
